@@ -9,6 +9,18 @@ import random, re
 import simdrv
 from .base import Check, key_str
 
+EXTREME = [
+    "sphere:657,4;rawhuge:0,2;slice:1,500",
+    "sphere:657,4;rawhuge:0,2;project:1",
+    "cube:922,41,852,15;sphere:657,4;copy:196;rawhuge:632,617;sub:747,415;force:-1,2",
+    "cube:500,500,500,1;rawhuge:0,1;cube:300,300,300,0;add:1,2;force:-1,2",
+    "sphere:300,3;rawhuge:0,2;refine:1,2;force:-1,2",
+    "sphere:300,3;rawhuge:0,2;hull:1;force:-1,2",
+    "sphere:300,3;rawhuge:0,1;smoothout:1,500,500;refine:-1,1;force:-1,2",
+    "sphere:300,3;rawhuge:0,2;calcnorm:1,0,500;rt64:-1;force:-1,2",
+    "sphere:300,3;rawhuge:0,2;simplify:1,500;decompose:-1;force:-1,2",
+    "cube:500,500,500,1;rawhuge:0,2;sphere:300,3;minksum:1,2,0,0",
+]
 CHUNK = 48
 NMENU = 9
 
@@ -59,6 +71,10 @@ class C09(Check):
     def absorb(self, j, r):
         x = r["res"]
         st = self.stats
+        if j["kind"] == "prog":  # extreme-coordinate probe that returned normally
+            self.cov["evaluations"] += 1
+            st["extreme_coordinate_probes_returned"] = st.get("extreme_coordinate_probes_returned", 0) + 1
+            return
         self.cov["evaluations"] += x["tested"]
         st["faults_tested"] += x["tested"]
         st["usable_imports"] += x["usable"]
@@ -162,6 +178,10 @@ class C09(Check):
             jobs.append({"flavour": rng.choice(["ser-asan", "ser-asan", "par-asan"]), "kind": "c09",
                          "args": {"obj": o, "stale": rng.randrange(NMENU), "faults": ";".join(fl), "precision": rng.choice([64, 64, 32]),
                                   "W": rng.choice([1, 2, 4]), "thr": rng.choice([64, 4096]), "seed": rng.randrange(1, 1 << 30)}, "timeout": 8, "multi": True})
+        # numeric arguments at the edge of the double range: finite transforms whose results stay finite (coordinates up to
+        # 1.7e308) followed by an operation that has to compute with them
+        for body in EXTREME:
+            prio.append({"flavour": "ser-asan", "kind": "prog", "args": {"prog": body}, "timeout": 60})
         rng.shuffle(jobs)
         jobs = prio + prio_par + jobs
         self.stats["smoke_range_jobs"] = len(prio)
